@@ -238,6 +238,22 @@ def cmp_answers(a, b):
     return pa[1] == '' or pb[1] == '' or pa[1] == pb[1]
 
 
+def cmp_contents(a, b):
+    """client-visible part only: sizes, elements, has_value / active alternative after every step"""
+    pa, pb = a.split(' # '), b.split(' # ')
+    if len(pa) != 3 or len(pb) != 3:
+        return a == b
+    return pa[0] == pb[0]
+
+
+def cmp_ledger(a, b):
+    """end-of-history balance only: blocks not freed, element objects not destroyed, lifetime / free errors"""
+    pa, pb = a.split(' # '), b.split(' # ')
+    if len(pa) != 3 or len(pb) != 3:
+        return a == b
+    return pa[2] == pb[2]
+
+
 # ----------------------------------------------------------------------------------------------
 # history classes: theorem domain and known findings (decided from the request alone)
 # ----------------------------------------------------------------------------------------------
@@ -353,48 +369,85 @@ def small_growth(ops):
 
 
 def in_domain(kind, ops):
-    """history lies in the hypothesis domain of the Lean refinement / ledger theorems of its kind"""
+    """(contents, ledger): the history lies in the hypothesis domain of the Lean refinement theorem of its kind
+    (vecOk / svecOk / smallOk / all histories) resp. of the ledger theorems (ledOk false / svecSafeOk / stays static)"""
     if kind == 'vec':
-        return not has_uninit_growth(ops) and not has_alias_push(ops) and not any(n == 'ctorN' for n, a in ops)
+        alias = has_alias_push(ops)
+        return (not has_uninit_growth(ops) and not alias,
+                not alias and not any(n == 'ctorN' and a[1] == 0 for n, a in ops))
     if kind == 'svec':
-        return not svec_oversize_ctor(ops) and not svec_growing_resize(ops)
+        return (not svec_oversize_ctor(ops) and not svec_growing_resize(ops), not svec_oversize_ctor(ops))
     if kind in ('arr', 'tuple', 'tuplev2'):
-        return True
+        return (True, True)
     if kind == 'small':
-        return not small_growth(ops) and not small_ever_dynamic(ops) and not has_alias_push(ops)
-    return False
+        return (not small_growth(ops) and not has_alias_push(ops), not small_ever_dynamic(ops))
+    return (False, False)
 
 
 def in_domain_e(kind, elem, ops):
-    """maybe/either: value refinement holds for every history; the lifetime clauses only for trivial element types or
-    histories of a non-trivial type that never construct / assign a left value"""
+    """(contents, ledger) for maybe/either: value refinement holds for every history; the lifetime clauses only for
+    trivial element types or histories of a non-trivial type that never construct / assign a left value"""
     if elem != 'tracked':
-        return True
-    return not any(n in ('mkL', 'setL', 'writeL') or (n == 'mk' and kind == 'either') for n, a in ops)
+        return (True, True)
+    return (True, not any(n in ('mkL', 'setL', 'writeL') or (n == 'mk' and kind == 'either') for n, a in ops))
+
+
+def _aspect_ok(case, aspect):
+    """a class explains a deviation of one aspect (client-visible contents / end-of-history ledger); sanitizer and
+    poisoned-storage runs abort the whole request, there any class of the history applies"""
+    return ('aspect=' + aspect) in case.tags or 'aspect=all' in case.tags
 
 
 def _lpred(kind, c):
     def p(case):
         k, e, ops = req_fields(case.req)
-        return k == kind and e == 'tracked' and c in lifetime_classes(kind, ops)
+        return k == kind and e == 'tracked' and _aspect_ok(case, 'ledger') and c in lifetime_classes(kind, ops)
     return p
 
 
-def _pred(kind, f):
+def _pred(kind, f, aspect):
     def p(case):
         k, e, ops = req_fields(case.req)
-        return k == kind and f(ops)
+        return k == kind and _aspect_ok(case, aspect) and f(ops)
     return p
+
+
+def small_copy_from_dynamic(ops):
+    """a small_vector is copy-constructed from an object that is in heap mode"""
+    dyn = [False] * NSLOTS
+    for n, a, st in sizes_along(ops, 'small'):
+        s = a[0]
+        o = st[s]
+        if o is None:
+            if n == 'ctorN': dyn[s] = a[1] >= SMALL_DIM
+            elif n == 'ctorV': dyn[s] = len(a) - 1 > SMALL_DIM
+            elif n == 'ctor': dyn[s] = False
+            elif n == 'copy' and st[a[1]] is not None:
+                if dyn[a[1]]:
+                    return True
+                dyn[s] = False
+        else:
+            if n == 'resize' and a[1] > SMALL_DIM: dyn[s] = True
+            elif n == 'push' and len(o) == SMALL_DIM: dyn[s] = True
+            elif n == 'assign' and st[a[1]] is not None: dyn[s] = dyn[a[1]]
+            elif n == 'destroy': dyn[s] = False
+    return False
+
+
+def _poison_pred(case):
+    f = dict(kv.split('=', 1) for kv in case.req.split()[1:])
+    return f.get('kind') == 'small' and f.get('fill') == 'poison' and small_copy_from_dynamic(parse_ops(f.get('ops', '')))
 
 
 KNOWN_PREDICATES = {
-    'vec_uninit_growth': _pred('vec', has_uninit_growth),
-    'vec_zero_sized_dropped': _pred('vec', has_zero_sized_dropped),
-    'vec_alias_push': _pred('vec', has_alias_push),
-    'svec_oversize_ctor': _pred('svec', svec_oversize_ctor),
-    'svec_grow_after_shrink': _pred('svec', svec_grow_after_shrink),
-    'small_growth': _pred('small', small_growth),
-    'small_ever_dynamic': _pred('small', small_ever_dynamic),
+    'vec_uninit_growth': _pred('vec', has_uninit_growth, 'contents'),
+    'vec_zero_sized_dropped': _pred('vec', has_zero_sized_dropped, 'ledger'),
+    'vec_alias_push': _pred('vec', has_alias_push, 'contents'),
+    'svec_oversize_ctor': _pred('svec', svec_oversize_ctor, 'contents'),
+    'svec_grow_after_shrink': _pred('svec', svec_grow_after_shrink, 'contents'),
+    'small_growth': _pred('small', small_growth, 'contents'),
+    'small_ever_dynamic': _pred('small', small_ever_dynamic, 'ledger'),
+    'small_copy_dynamic_raw_storage': _poison_pred,
     'maybe_nt_assign_unconstructed': _lpred('maybe', 'assign'),
     'maybe_nt_never_destroyed': _lpred('maybe', 'held'),
     'either_nt_construct_over_live': _lpred('either', 'over'),
@@ -530,35 +583,48 @@ def fix_arr(ops):
     return [(n, [a[0], min(a[1], ARR_N - 1)] + a[2:]) if n in ('write', 'read') else (n, a) for n, a in ops]
 
 
-def cases_for(kind, elem, ops, tags):
-    """spec judgement (+ model inside the theorem domain) and, outside the domain, a pure correspondence case"""
-    req = 'hist kind=%s elem=%s ops=%s' % (kind, elem, fmt_ops(ops))
-    dom = in_domain(kind, ops)
+def _cases(verb, kind, elem, ops, tags, dc, dl, orc):
+    """inside both theorem domains: one request, IMPL vs ORACLE vs MODEL on everything.  Otherwise the client-visible
+    contents and the end-of-history ledger are judged separately (a known class explains one aspect only) and a third
+    request compares IMPL with the mirroring MODEL on everything including the internal state."""
+    req = '%s kind=%s elem=%s ops=%s' % (verb, kind, elem, fmt_ops(ops))
     nt = len(ops) >= 3
-    orc = oracle_seq(ops, kind)
-    yield Case(req, HARNESS, dom=dom, oracle=orc, model=dom, nontrivial=nt, tags=list(tags) + ['kind=' + kind, 'elem=' + elem, 'dom' if dom else 'off-dom', 'len=%d' % min(len(ops), 8) if len(ops) <= 8 else 'len>8'], cmp=cmp_answers)
-    if not dom:
-        yield Case(req, HARNESS, dom=False, oracle=None, model=True, nontrivial=nt, tags=['correspondence-only', 'kind=' + kind], cmp=cmp_answers)
+    base = list(tags) + ['kind=' + kind, 'elem=' + elem, 'len=%d' % len(ops) if len(ops) <= 7 else 'len>7']
+    if dc and dl:
+        yield Case(req, HARNESS, dom=True, oracle=orc, model=True, nontrivial=nt, tags=base + ['dom', 'aspect=contents', 'aspect=ledger'], cmp=cmp_answers)
+        return
+    yield Case(req, HARNESS, dom=dc, oracle=orc, model=dc, nontrivial=nt, tags=base + ['aspect=contents', 'dom' if dc else 'off-dom'], cmp=cmp_contents)
+    yield Case(req, HARNESS, dom=dl, oracle=orc, model=dl, nontrivial=nt, tags=base + ['aspect=ledger', 'dom' if dl else 'off-dom'], cmp=cmp_ledger)
+    yield Case(req, HARNESS, dom=False, oracle=None, model=True, nontrivial=nt, tags=['correspondence-only', 'kind=' + kind], cmp=cmp_answers)
 
 
-def san_case(kind, elem, ops, tags):
-    """the same history under ASan/UBSan against the reference only"""
-    e = kind in ('maybe', 'either')
-    req = '%s kind=%s elem=%s ops=%s' % ('ehist' if e else 'hist', kind, elem, fmt_ops(ops))
-    dom = in_domain_e(kind, elem, ops) if e else in_domain(kind, ops)
-    orc = oracle_either(ops, kind) if e else oracle_seq(ops, kind)
-    return Case(req, 'h_c19_san', dom=dom, oracle=orc, model=False, nontrivial=len(ops) >= 3,
-                tags=list(tags) + ['san', 'kind=' + kind], cmp=cmp_answers)
+def cases_for(kind, elem, ops, tags):
+    dc, dl = in_domain(kind, ops)
+    yield from _cases('hist', kind, elem, ops, tags, dc, dl, oracle_seq(ops, kind))
 
 
 def ecases_for(kind, elem, ops, tags):
-    req = 'ehist kind=%s elem=%s ops=%s' % (kind, elem, fmt_ops(ops))
-    dom = in_domain_e(kind, elem, ops)
-    nt = len(ops) >= 3
-    yield Case(req, HARNESS, dom=dom, oracle=oracle_either(ops, kind), model=dom, nontrivial=nt,
-               tags=list(tags) + ['kind=' + kind, 'elem=' + elem, 'dom' if dom else 'off-dom'], cmp=cmp_answers)
-    if not dom:
-        yield Case(req, HARNESS, dom=False, oracle=None, model=True, nontrivial=nt, tags=['correspondence-only', 'kind=' + kind], cmp=cmp_answers)
+    dc, dl = in_domain_e(kind, elem, ops)
+    yield from _cases('ehist', kind, elem, ops, tags, dc, dl, oracle_either(ops, kind))
+
+
+def san_case(kind, elem, ops, tags, extra=''):
+    """the same history under ASan/UBSan against the reference only"""
+    e = kind in ('maybe', 'either')
+    req = '%s kind=%s elem=%s %sops=%s' % ('ehist' if e else 'hist', kind, elem, extra, fmt_ops(ops))
+    dc, dl = in_domain_e(kind, elem, ops) if e else in_domain(kind, ops)
+    orc = oracle_either(ops, kind) if e else oracle_seq(ops, kind)
+    return Case(req, 'h_c19_san', dom=dc and dl, oracle=orc, model=False, nontrivial=len(ops) >= 3,
+                tags=list(tags) + ['san', 'kind=' + kind, 'aspect=all'], cmp=cmp_answers)
+
+
+def poison_case(ops, tags):
+    """small_vector history with the object storage filled with 0xA5 instead of zeros: a copy construction from a
+    heap-mode object assigns into a never-constructed vector whose pointer / capacity are then garbage"""
+    req = 'hist kind=small elem=int fill=poison ops=%s' % fmt_ops(ops)
+    dc, dl = in_domain('small', ops)
+    return Case(req, HARNESS, dom=False, oracle=oracle_seq(ops, 'small'), model=False, nontrivial=len(ops) >= 3,
+                tags=list(tags) + ['poisoned-storage', 'kind=small', 'aspect=all'], cmp=cmp_contents)
 
 
 def enum_ehistories(L, kind):
@@ -633,6 +699,8 @@ def gen(tier, rng):
         yield from cases_for(kind, elem, parse_ops(ops), ['witness'])
     for kind, elem, ops in EWITNESSES:
         yield from ecases_for(kind, elem, parse_ops(ops), ['witness'])
+    for ops in POISON_WITNESSES:
+        yield poison_case(parse_ops(ops), ['witness'])
     # utl::maybe / utl::either -------------------------------------------------------------------
     for kind in ('maybe', 'either'):
         n2 = 0
@@ -691,6 +759,12 @@ def gen(tier, rng):
         n2 += 1
         yield from cases_for('tuple' if n2 % 2 else 'tuplev2', ('int', 'tracked', 'double')[n2 % 3], ops, ['exhaustive-2obj'])
 
+
+POISON_WITNESSES = [
+    'ctorN:0:6;copy:1:0',
+    'ctor:0;push:0:1;push:0:2;push:0:3;push:0:4;push:0:5;copy:1:0;write:1:0:9',
+    'ctorN:0:2;copy:1:0;push:1:7',         # static source: no defect, must agree with the reference
+]
 
 EWITNESSES = [
     ('maybe', 'tracked', 'mkL:0:5;destroy:0'),
